@@ -5,6 +5,7 @@ CONSTANTS
   MenuKind = "focus"
   MaxDepth = 3
   StartChain = TRUE
+  EmitMin = 0
   Emit = TRUE
 INVARIANT BagMatches
 INVARIANT ListMatches
